@@ -1,5 +1,5 @@
 #!/bin/sh
-# Builds the symbolic engine from ./engine of this checkout (module cache only, offline).
+# Builds the symbolic engine from ./engine next to this script (module cache only, offline).
 set -e
 ROOT=$(cd "$(dirname "$0")" && pwd)
 cd "$ROOT/engine"
